@@ -692,7 +692,7 @@ func (s *scanner) stateAnyAnnotationStart(c byte) (st state, err error) {
 }
 
 func (s *scanner) stateInlineAnnotation(c byte) (state, error) {
-	if bytes.IsBlank(c) {
+	if bytes.IsSpace(c) { // a line end means the comment is empty
 		return scanSkip, nil
 	}
 
